@@ -17,8 +17,10 @@ AMBIENT_CALLS = {'id': 'object identity', 'hash': 'hash value (seed dependent fo
 MUTABLE_CTORS = {'list', 'dict', 'set', 'defaultdict', 'OrderedDict', 'Counter', 'deque'}
 
 
-def order_sites(ctx, py: PyRepo, oa: OrderAnalysis, reach):
+def order_sites(ctx, py: PyRepo, oa: OrderAnalysis, reach, only_modules=None):
     sites = oa.sites()
+    if only_modules is not None:
+        sites = [s for s in sites if s.module in only_modules]
     n_reach = 0
     for s in sites:
         short_fn = s.function
@@ -44,7 +46,7 @@ def order_sites(ctx, py: PyRepo, oa: OrderAnalysis, reach):
                f'differ between runs on the same input', where, facts={'elements': s.elem, 'consumer': s.consumer})
     ctx.analysed['iteration sites over sets'] = len(sites)
     stale = [k for k in ORDER_SAFE if not any((s.module, s.function, s.stable, s.consumer) == k for s in sites)]
-    if stale:
+    if stale and only_modules is None:
         ctx.advisory(f'triage entries without a matching site (code changed): {stale}')
 
 
